@@ -23,7 +23,7 @@ PROP = Prop(
     assumptions=[
         "audit oracle is raw SQL over the produced SQLite database (no ORM); values held by the simulation are snapshotted by wrapping "
         "Scenario.saveDatabaseOutput on the harness side",
-        "faults are injected by wrapping Session.bulk_save_objects (flush part of the list, then raise SQLAlchemyError)",
+        "faults are injected below the ORM, on the engine's before_cursor_execute event: the INSERT statement that would exceed a drawn row budget, or the first INSERT into a drawn table, raises SQLAlchemyError after the earlier statements of the transaction were executed",
     ],
 )
 kit.install_keyed_noise(per_call=True)  # repeated measurements of one pair at one epoch differ, as with real noise
@@ -45,7 +45,7 @@ def _cases(draw):
     total = 0
     for _ in range(draw(st.integers(1, 4))):
         k = draw(st.integers(1, 5))
-        ops.append({"op": "run", "steps": k, "fault": draw(st.sampled_from([None, None, None, 0, 1, 3, 6, 11, 25]))})
+        ops.append({"op": "run", "steps": k, "fault": draw(st.sampled_from([None, None, None, 0, 1, 3, 6, 11, 25, 40, "tasks", "observations", "estimate_ephemerides", "filterstep", "sequential_filter_step", "detected_maneuvers", "missed_observations"]))})
         total += k
     events = []
     if draw(st.booleans()):
@@ -93,42 +93,52 @@ def _config(c, total_steps):
 
 
 class _FaultyBulk:
-    """Fault injection (harness side): once armed with a budget of k objects, the bulk save that would write object k+1 first
-    flushes the objects still within the budget and then raises SQLAlchemyError - however the code batches its objects."""
+    """Fault injection (harness side) at the level of SQL statements, so that it does not depend on which session API the code
+    writes through (bulk save, add_all, one transaction or several).  Armed with a budget of k rows, the INSERT statement that
+    would write row k+1 raises SQLAlchemyError (the rows of earlier statements of that transaction were executed and have to be
+    rolled back).  Armed with a table name, the first INSERT into that table raises."""
 
     def __init__(self):
-        self.budget = None
+        self.budget = None  # int (rows still allowed) | str (table whose first INSERT fails) | None
         self.fired = 0
-        self._orig = None
+        self._listener = None
 
     def __enter__(self):
+        from sqlalchemy import event
+        from sqlalchemy.engine import Engine
         from sqlalchemy.exc import SQLAlchemyError
-        from sqlalchemy.orm import Session
 
-        self._orig = Session.bulk_save_objects
         me = self
 
-        def bulk(session, objects, *a, **k):
-            objects = list(objects)
+        def before(conn, cursor, statement, parameters, context, executemany):  # noqa: ARG001
             if me.budget is None:
-                return me._orig(session, objects, *a, **k)
-            if me.budget >= len(objects):
-                me.budget -= len(objects)
-                return me._orig(session, objects, *a, **k)
-            cut, me.budget = me.budget, None
+                return
+            head = statement.lstrip()[:80].upper()
+            if not head.startswith("INSERT"):
+                return
+            if isinstance(me.budget, str):
+                if f"INTO {me.budget.upper()} " not in head + " " and f'INTO "{me.budget.upper()}"' not in head:
+                    return
+                me.budget = None
+                me.fired += 1
+                raise SQLAlchemyError("injected fault on the first INSERT into the named table")
+            rows = len(parameters) if executemany and isinstance(parameters, (list, tuple)) else 1
+            if me.budget >= rows:
+                me.budget -= rows
+                return
+            me.budget = None
             me.fired += 1
-            if cut:
-                me._orig(session, objects[:cut], *a, **k)
-                session.flush()
-            raise SQLAlchemyError("injected fault during bulk save")
+            raise SQLAlchemyError("injected fault during the writing of a step")
 
-        Session.bulk_save_objects = bulk
+        self._listener = before
+        event.listen(Engine, "before_cursor_execute", before)
         return self
 
     def __exit__(self, *exc):
-        from sqlalchemy.orm import Session
+        from sqlalchemy import event
+        from sqlalchemy.engine import Engine
 
-        Session.bulk_save_objects = self._orig
+        event.remove(Engine, "before_cursor_execute", self._listener)
         return False
 
 
@@ -249,7 +259,7 @@ def histories(c, rec):
             goal = done + op["steps"]
             if op["fault"] is not None:
                 faulty.budget = op["fault"]
-                rec.label("fault_armed")
+                rec.label("fault_armed" if not isinstance(op["fault"], str) else "fault_armed:table:" + op["fault"])
             attempts = 0
             while int(round(float(sc.clock.time))) < goal * dt and attempts < 3:
                 attempts += 1
